@@ -74,8 +74,8 @@ claimed = {
   technique=SIM + ": seeded user/grant/credential histories against the real HTTP handler, authorizers and polling meta client on a simulated network and clock; window scheduling at a yield point; reference model",
   ref="3 C16"),
  "C17": dict(
-  text="1-3 real retention services tick every 30 fake minutes over one real meta.Data with shard groups placed around the expiry boundary (+-1ns), duration changes (incl. infinite), operator deletes, truncation, clock advances, orphan local shards and injected metadata/DeleteShard errors; safety oracle at every DeleteShardGroup/DeleteShard call, bounded liveness (2 passes to mark, 3 to drop) after faults stop.",
-  note="TSDBStore and meta client are stubs; the write-time cut-off is checked by C08",
+  text="1-3 real retention services tick every 30 fake minutes over one real meta.Data with shard groups placed around the expiry boundary (+-1ns), duration changes (incl. infinite), operator deletes, truncation, clock advances, orphan local shards and injected metadata/DeleteShard errors; safety oracle at every DeleteShardGroup/DeleteShard call, bounded liveness (2 passes to mark, 3 to drop) after faults stop. Store mode (1 run in 6): the service runs against one real tsdb.Store (inmem / tsi1) holding 2-4 shards of consecutive one-hour groups with drawn writes of shared series, snapshots, compactions, restarts, hours passing, operator deletes and injected errors; every shard that is neither deleted nor expired must stay in the store, read exactly its acknowledged writes through both read paths and stay listed by the index (removing a shard takes series ids out of the database-wide series file), and three passes after the last fault every shard of a deleted or expired group is gone from the store and from disk, also after a restart.",
+  note="in the metadata mode TSDBStore is a stub; the meta client is a serialised apply over real meta.Data; store mode has one node; index entries that linger for a removed shard's series are not judged; the write-time cut-off is checked by C08",
   technique=SIM + ": testing/synctest fake clock driving the real service loop, expiry predicate restated in the harness, injected errors",
   ref="3 C17"),
  "C05": dict(
